@@ -500,8 +500,9 @@ class SymBackend(BackendBase):
             facts.append(z3.Implies(z3.And(*(lits + guard)) if (lits or guard) else z3.BoolVal(True), za == ze))
         return facts
 
-    def eq_tensor(self, name, actual, expected):
-        """actual: STensor; expected: STensor (from spec_tensor).  nan-equal, same shape."""
+    def eq_tensor(self, name, actual, expected, care=None):
+        """actual: STensor; expected: STensor (from spec_tensor).  nan-equal, same shape.
+        `care(*idx) -> bool`: cells where it is false are left unspecified."""
         if not isinstance(actual, STensor):
             self.check(name + ":is-array", False)
             return
@@ -520,6 +521,11 @@ class SymBackend(BackendBase):
                 self.check(name + tag + ":empty-range", False, hy)
                 continue
             e = expected._elem(*[raw(i) for i in idx])
+            if care is not None:
+                cond = raw(core.lift_bool(care(*[sint(raw(i)) for i in idx])))
+                if core._bconst(cond) is False:
+                    continue
+                hy = list(hy) + ([cond] if core._bconst(cond) is None else [])
             self.eq_scalar(name + tag, a, e, hy)
 
     def all_cells(self, name, shape, pred):
@@ -732,12 +738,17 @@ class ConcreteBackend(BackendBase):
         )
         self.check(name, ok)
 
-    def eq_tensor(self, name, actual, expected):
+    def eq_tensor(self, name, actual, expected, care=None):
         np = self.np
         actual = np.asarray(actual, dtype=float)
         if actual.shape != expected.shape:
             self.check(name + ":shape %s vs %s" % (actual.shape, expected.shape), False)
             return
+        if care is not None:
+            actual, expected = actual.copy(), expected.copy()
+            for idx in itertools.product(*[range(d) for d in expected.shape]):
+                if not care(*idx):
+                    actual[idx] = expected[idx] = 0.0
         ok = np.allclose(actual, expected, rtol=1e-9, atol=1e-12, equal_nan=True)
         self.check(name, ok)
 
